@@ -6,7 +6,7 @@ import xzgen, gen
 
 TRUSTED = [
  'Coq 8.16.1 kernel; vm_compute for the bound table; no native_compute', 'axioms: none',
- 'theorem xz_stream_is_valid_and_lossless: the specification decoder accepts every Stream the container model writes (plain LZMA2 chain, Check None/CRC32/CRC64), consumes exactly its bytes and returns the Block contents; tied to the real encoder by xzsyms: real single-threaded encoder files (multi-Block via full flush) = stream_bytes of their traced structure',
+ 'theorem xz_stream_is_valid_and_lossless: the specification decoder accepts every Stream the container model writes (plain LZMA2 chain, Check None/CRC32/CRC64/SHA-256), consumes exactly its bytes and returns the Block contents; tied to the real encoder by xzsyms: real single-threaded encoder files (multi-Block via full flush) = stream_bytes of their traced structure',
  'independent decoder = the Coq specification (Xz.v etc., strict: match distances must be below the DECLARED dictionary size); it recomputes sizes, CRC32s, Check, padding, Index and Backward Size from the data, so acceptance means truthful metadata',
  'translator: harness/gen_bounds.c prints lzma_block_buffer_bound/lzma_stream_buffer_bound around every branch (thresholds by bisection on the real functions); the Coq model must reproduce the table',
  'match finder / optimum parser not modelled: validity of each produced stream is decided per run by the specification decoder',
@@ -96,7 +96,7 @@ def run(ctx):
         if len(parts) == 3 and parts[0].strip() == '0' and parts[1].split() and parts[1].split()[-1].endswith(':1'):
             hist_out.append((d, lab, parts[2].strip()))
     # ---- container model: files written by the single-threaded Stream encoder for the plain LZMA2 chain (one or several
-    # Blocks via LZMA_FULL_FLUSH; Check None/CRC32/CRC64) must be byte for byte the model serialisation stream_bytes (subject
+    # Blocks via LZMA_FULL_FLUSH; Check None/CRC32/CRC64/SHA-256) must be byte for byte the model serialisation stream_bytes (subject
     # of xz_stream_is_valid_and_lossless) of the Blocks, chunks and symbols read from them
     xl, xm = [], []
     for i in range(16 if ctx.quick() else 300):
@@ -107,7 +107,7 @@ def run(ctx):
             k = rng.randrange(0, left + 1); left -= k; steps.append('%s%d' % (rng.choice('FFS'), k))
         steps.append('R%d' % left)
         fs_ = 'lzma2:dict=%s,lc=%d,lp=%d,pb=%d,mf=%s' % (rng.choice(['4KiB', '64KiB', '1MiB', '12KiB']), rng.randrange(4), 0, rng.randrange(5), rng.choice(['hc4', 'bt4']))
-        xl.append('flush 4 %d %d %s %s %s' % (rng.choice([0, 1, 4]) << 8, rng.randrange(1 << 20), fs_, ';'.join(steps), d.hex() or '-')); xm.append((d, fs_ + ' ' + ';'.join(steps)))
+        xl.append('flush 4 %d %d %s %s %s' % (rng.choice([0, 1, 4, 10]) << 8, rng.randrange(1 << 20), fs_, ';'.join(steps), d.hex() or '-')); xm.append((d, fs_ + ' ' + ';'.join(steps)))
     xo, xf = run_lines(fl, xl)
     for f in xf: ctx.violation('encoder crashed in a flush history', {'line': (f[0] or '')[:20000], 'stderr': f[1], 'kind': 'crash'})
     xt, xtm = [], []
